@@ -14,6 +14,14 @@ P = {
  'C13': dict(level='other', ref='DESIGN.md section 3 C13',
    text='find_class confirmed over all paths for UNBOUNDED symbolic module/name strings on a message-stripped shadow of the current source (allow-list pinned in /verif); unpickler selection and absence of any fallback to the stock unpickler confirmed for every exception class / setting value. The opcode level rests on the CPython fact that every route to a global goes through find_class.'),
 }
+P.update({
+ 'C02': dict(level='other', ref='DESIGN.md section 3 C02',
+   text='Inductive single-step lemmas (store, drain, cache-query) from a symbolic pre-state of a real _MetricCache (symbolic subset of 2x2 datapoints, symbolic values, unbounded symbolic ghost size) for all 7 strategy settings, plus every sequence of <=3 (quick) / <=4 (thorough) store/drain operations against a multiset model, each decided by CrossHair+z3 with exhausted path trees. Interleavings: see notes (race harness).'),
+ 'C10': dict(level='other', ref='DESIGN.md section 3 C10',
+   text='Inductive store step from a symbolic pre-state with UNBOUNDED symbolic MAX_CACHE_SIZE (any positive int or inf), flow control on/off, symbolic ghost size, all 7 strategies: bound never crossed, refusal iff the datapoint would exceed the hard limit, exactly one overflow signal per refusal, refusal leaves contents/size/metric count unchanged, updates always accepted. The limits are derived by executing conf.py\'s own statements on exact rationals.'),
+ 'C17': dict(level='other', ref='DESIGN.md section 3 C17',
+   text='For all 7 strategies: complete drain of a symbolic cache (3 metrics x 0..3 datapoints) hands out everything exactly once, never an empty batch, max/bucketmax always return a maximal metric; pass fairness for naive/sorted/timesorted over every sequence of <=4 (quick) / 5 (thorough) drain/store operations; MIN_TIMESTAMP_LAG with unbounded symbolic clock and lag. Path trees exhausted within those bounds.'),
+})
 NA_PENDING = 'harness not implemented yet in this round (see DESIGN.md section 3 for the planned solver-based harness)'
 
 
